@@ -1373,6 +1373,25 @@ func (r *Run) stepIngest() {
 		lo, hi = r.randRange()
 	}
 	tables := r.genIngestTables(lo, hi, excise)
+	if !excise && r.lastExLo != "" && r.rng.IntN(3) == 0 {
+		// a table that touches the most recent excise span from outside: its
+		// largest key is the span's (inclusive) start, or its smallest key is the
+		// span's (exclusive) end
+		var ops []model.Op
+		if r.rng.IntN(2) == 0 {
+			if k := r.randKey(); model.Cmp(k, r.lastExLo) < 0 && r.rng.IntN(2) == 0 {
+				ops = append(ops, model.Op{Kind: model.OpSet, Key: k, Value: r.newValue()})
+			}
+			ops = append(ops, model.Op{Kind: model.OpSet, Key: r.lastExLo, Value: r.newValue()})
+		} else {
+			ops = append(ops, model.Op{Kind: model.OpSet, Key: r.lastExHi, Value: r.newValue()})
+			if k := r.randKey(); model.Cmp(k, r.lastExHi) > 0 && r.rng.IntN(2) == 0 {
+				ops = append(ops, model.Op{Kind: model.OpSet, Key: k, Value: r.newValue()})
+			}
+		}
+		tables = [][]model.Op{ops}
+		r.count("ingests_touching_last_excise_span", 1)
+	}
 	if len(tables) == 0 {
 		return
 	}
@@ -1452,6 +1471,7 @@ func (r *Run) stepIngest() {
 // noteExcise records an excised span on classic snapshots (documented
 // exception: data inside may disappear from them).
 func (r *Run) noteExcise(lo, hi string) {
+	r.lastExLo, r.lastExHi = lo, hi
 	for _, s := range r.snaps {
 		s.excised = append(s.excised, [2]string{lo, hi})
 	}
